@@ -41,6 +41,9 @@ func init() {
 		skeletonExplain(c, "C05 (race freedom of the record lists): Eraser-style lockset discipline on the skeletons — every read or write of a record slice happens with a lock of the receiver certainly held (must-lockset over go/cfg), writes under a write lock, one common lock protects all accesses of a slice across all functions of the mock, distinct methods use distinct slices and locks, lock fields are sync.RWMutex/Mutex values of import path \"sync\" (resolved by go/types, so a user package named sync cannot stand in), receivers are pointers, no reference to the storage escapes. The atomic-list behaviour (count, no tearing, per-goroutine order, prefix-monotone snapshots) follows from these facts plus C04's single append inside one write section and the Go memory model; that derivation is an argument, not machine-checked.")
 		c.Run.Floor("K-LOCK/access-locked", 3)
 		c.Run.Floor("K-LOCK/write-exclusive", 1)
+		// the lock fields are sync.RWMutex only if "sync" in the file is the standard package: it is registered
+		// by its path, by Mock, whatever else answers to that name
+		gen.CheckImports(c.Run, c.Prog)
 		c.RunSkeletons(SkelOpts{Rules: []string{"K-LOCK/access-locked", "K-LOCK/write-exclusive", "K-LOCK/common-lock", "K-LOCK/distinct-locks", "K-LOCK/lock-type", "K-LOCK/receiver", "K-LOCK/unbalanced", "K-RECORD/escape", "K-RECORD/distinct-storage", "K-RECORD/writers", "K-FLOW/go", "K-RESET/frame", "K-FLOW/calls"}})
 	})
 	register("C06", "proof", func(c *Ctx) {
